@@ -28,7 +28,7 @@ def FG(test, secs=90):
 
 
 STAGES = {
-    "C07": [S("regress", "^TestC07Regress$"),
+    "C07": [S("regress", "^TestC07Regress$|^TestC07WriteFault$"),
             S("lag", "^TestC07Lag$"),
             S("machine", "^TestC07$", quick=250, thorough=4000, shards=(6, 16), timeout=("15m", "90m")),
             # the same machine on one P: sync.Pool then hands an object straight to the next Get, whoever calls it
